@@ -6,7 +6,7 @@
   The cache `c` is ARBITRARY in every lookup theorem (in particular every state reachable by inserts, invalidation,
   reload marks, GC rounds, epoch-not-match handling), PD is an arbitrary list of regions unless stated otherwise.
 -/
-import ClientGoVerif.Proofs.RegionBatch
+import ClientGoVerif.Proofs.RegionReach
 namespace CGV.Props.C09
 open CGV CGV.Region
 
@@ -219,5 +219,105 @@ theorem grouping_partition (c c' : Cache) (pd : PD) (keys : List Bytes) (g : Lis
 theorem index_sorted (c c' : Cache) (n : Entry) (ok : Bool) (h : insertRegionToCache c n = (c', ok))
     (hs : Sorted c.sorted) : Sorted c'.sorted :=
   insert_sorted h hs
+
+/-! ## every operation sequence: the reachable caches -/
+
+/-- after ANY sequence of API operations (lookups of all kinds answered by arbitrary, changing or stale PD states,
+    invalidation, need-reload marks, leader updates, epoch-not-match handling, GC rounds) the cache is well-formed:
+    the index is strictly sorted by start key and latestVersions is keyed consistently -/
+theorem reachable_cache_wf (ops : List Op) : CacheWF (ops.foldl applyOp Cache.empty) :=
+  reachable_wf (reachable_applyOps ops Reachable.empty)
+
+/-- non-overlap is NOT an invariant of the code and is therefore not assumed anywhere: a wider stale entry that starts
+    earlier survives the insert of a newer region inside it -/
+theorem overlap_reachable : ∃ c : Cache, Reachable c ∧ ∃ a ∈ c.sorted, ∃ b ∈ c.sorted, a ≠ b ∧
+    a.r.contains [110] = true ∧ b.r.contains [110] = true := by
+  let a : Entry := ⟨⟨1, [97], some [122], 1, 0⟩, true, false, 1, [1]⟩
+  let b : Entry := ⟨⟨2, [109], some [122], 2, 0⟩, true, false, 1, [1]⟩
+  refine ⟨(insertRegionToCache (insertRegionToCache Cache.empty a).1 b).1,
+    Reachable.insert b (Reachable.insert a Reachable.empty), a, ?_, b, ?_, ?_, ?_, ?_⟩
+  · decide
+  · decide
+  · decide
+  · decide
+  · decide
+
+/-- BatchLocateKeyRanges after any operation sequence (see `batch_lookup_gap_free_partial` for what is assumed) -/
+theorem batch_lookup_gap_free_reachable (ops : List Op) (fuel : Nat) (c' : Cache) (pd : PD) (ranges : List KeyRange)
+    (ls : List Region) (hv : ValidRanges ranges) (hn : ranges.length ≤ 16 * limitPerBatch)
+    (h : batchLocateKeyRanges fuel (ops.foldl applyOp Cache.empty) pd ranges = (c', .ok ls)) :
+    ∀ kr ∈ ranges, Covers ls kr.start kr.end_ :=
+  batch_lookup_gap_free_partial fuel _ c' pd ranges ls (reachable_cache_wf ops).1 hv hn h
+
+/-- LocateRegionByID after any operation sequence: the location has the id that was asked for -/
+theorem lookup_by_id (ops : List Op) (c' : Cache) (pd : PD) (id : Nat) (r : Region)
+    (h : locateRegionByID (ops.foldl applyOp Cache.empty) pd id = (c', .ok r)) : r.id = id :=
+  locateRegionByID_id (reachable_cache_wf ops).2 h
+
+/-- a location answered by LocateKey is a VALID entry of the index or a fresh PD answer (any cache) -/
+theorem lookup_valid_or_fresh (c c' : Cache) (pd : PD) (key : Bytes) (r : Region)
+    (h : locateKey c pd key = (c', .ok r)) :
+    (∃ e ∈ c.sorted, e.valid = true ∧ e.r = r) ∨ (∃ lr, loadRegion pd key false = .ok lr ∧ lr.r = r) := by
+  unfold locateKey at h
+  cases hf : findRegionByKey c pd key false with
+  | mk c1 res =>
+    rw [hf] at h
+    cases res with
+    | error x => simp [Except.map] at h
+    | ok e =>
+      simp only [Except.map, Prod.mk.injEq, Except.ok.injEq] at h
+      rcases findRegionByKey_origin hf with ⟨hm, hv⟩ | hl
+      · exact Or.inl ⟨e, hm, hv, h.2⟩
+      · exact Or.inr ⟨e, hl, h.2⟩
+
+/-- a stale region is never returned after invalidate: if LocateKey on a cache in which VerID `v` was invalidated
+    answers a region with that VerID, the answer is a fresh PD answer, not the invalidated entry -/
+theorem no_stale_after_invalidate (c c' : Cache) (v : VerID) (pd : PD) (key : Bytes) (r : Region)
+    (h : locateKey (c.invalidate v) pd key = (c', .ok r)) (hv : r.verID = v) :
+    ∃ lr, loadRegion pd key false = .ok lr ∧ lr.r = r := by
+  rcases lookup_valid_or_fresh _ _ _ _ _ h with ⟨e, hm, hval, rfl⟩ | hl
+  · have := invalidate_marks c v e hm hv
+    rw [this] at hval; cases hval
+  · exact hl
+
+/-- the multi-region lookups only take valid entries without the need-reload flag from the cache -/
+theorem range_lookups_use_valid_entries (c : Cache) :
+    (∀ k b e, tryFindRegionByKey c k b = some e → e ∈ c.sorted ∧ e.valid = true ∧ e.reload = false) ∧
+    (∀ s e limit, ∀ x ∈ scanRegionsFromCache c s e limit, x.valid = true ∧ x.reload = false) :=
+  ⟨fun _ _ _ h => tryFind_valid h, fun s e limit => scan_valid c s e limit⟩
+
+/-- a successful insert evicts exactly the entries whose start key lies in the new region's range: the new index is
+    the new entry plus the old entries starting outside that range -/
+theorem insert_evicts_exactly (c c' : Cache) (n : Entry) (hwf : n.r.wf)
+    (h : insertRegionToCache c n = (c', true)) (e : Entry) :
+    e ∈ c'.sorted ↔ e = n ∨ (e ∈ c.sorted ∧ inRangeStart n.r e = false) := by
+  rcases insert_spec h with ⟨hf, _⟩ | ⟨_, heq, _⟩
+  · cases hf
+  · rw [heq]
+    constructor
+    · intro he
+      rcases mem_insertSorted he with he | he
+      · exact Or.inl he
+      · simp only [List.mem_filter, Bool.not_eq_eq_eq_not, Bool.not_true] at he
+        exact Or.inr he
+    · rintro (rfl | ⟨he, hin⟩)
+      · exact self_mem_insertSorted _ _
+      · apply mem_insertSorted_of_mem
+        · simp [List.mem_filter, he, hin]
+        · intro hs
+          have : inRangeStart n.r e = true := by
+            unfold inRangeStart
+            rw [hs, le_refl]
+            unfold Region.wf at hwf
+            unfold Region.endKey
+            cases hend : n.r.end_ with
+            | none => simp
+            | some x => simp [hend] at hwf; simp [hwf]
+          rw [this] at hin; cases hin
+
+/-- non-vacuity: a successful insert with a well-formed region -/
+example : (⟨⟨2, [103], some [116], 2, 0⟩, true, false, 1, [1]⟩ : Entry).r.wf ∧
+    (insertRegionToCache Cache.empty ⟨⟨2, [103], some [116], 2, 0⟩, true, false, 1, [1]⟩).2 = true := by
+  refine ⟨by simp [Region.wf]; decide, rfl⟩
 
 end CGV.Props.C09
